@@ -569,14 +569,16 @@ class Plucker(SMUserList):
         :return: lines are parallel
         :rtype: bool
 
-        ``l1.isparallel(l2)`` is true if the two lines are parallel.
+        ``l1.isparallel(l2)`` is true if the two lines are parallel: the sine of
+        the angle between their directions, :math:`\|w_1 \times w_2\| / (\|w_1\| \|w_2\|)`,
+        is below ``tol``.  The test does not depend on the lengths of the direction vectors.
         
         ``l1 | l2`` as above but in binary operator form
 
         :seealso: Plucker.or, Plucker.intersects
         """
         l1 = self
-        return np.linalg.norm(np.cross(l1.w, l2.w) ) < tol
+        return np.linalg.norm(np.cross(l1.w, l2.w)) < tol * np.linalg.norm(l1.w) * np.linalg.norm(l2.w)
 
     
     def __or__(self, l2):  # pylint: disable=no-self-argument
